@@ -615,18 +615,29 @@ impl Property for C07 {
                 o.labels.push("binary-with-check".into());
             }
             let stdin_text: &str = if with_check { &text } else { &src };
+            // the --check variant names a real file (the binary computes the exit status of
+            // path inputs and of standard input in different places)
+            let file = r.tmp.join(format!("c07-{}.rs", r.case_no));
+            let marker = if with_check {
+                let _ = std::fs::write(&file, stdin_text);
+                cmd.arg(&file);
+                format!("c07-{}.rs", r.case_no)
+            } else {
+                "<stdin>".to_string()
+            };
             cmd.arg("--config").arg(cfg.join(",")).current_dir(&r.tmp).env("RUSTC_ICE", "0").stdin(Stdio::piped()).stdout(Stdio::piped()).stderr(Stdio::piped());
             if let Ok(mut child) = cmd.spawn() {
                 if let Some(mut si) = child.stdin.take() {
                     let _ = si.write_all(stdin_text.as_bytes());
                 }
                 if let Ok(res) = child.wait_with_output() {
+                    let _ = std::fs::remove_file(&file);
                     let err = String::from_utf8_lossy(&res.stderr);
                     if res.status.code() != Some(1) {
-                        return Outcome::fail("trailing-blank-exit-status", format!("a trailing blank is left behind but the binary exits with {:?}\n{err}", res.status.code())).nontrivial(true);
+                        return Outcome::fail("trailing-blank-exit-status", format!("a trailing blank is left behind but the binary{} exits with {:?}\n{err}", if with_check { " (--check, path input)" } else { "" }, res.status.code())).nontrivial(true);
                     }
                     for (l, k) in &reported {
-                        if *k == Kind::Trailing && !err.contains(&format!("<stdin>:{l}:")) {
+                        if *k == Kind::Trailing && !err.contains(&format!("{marker}:{l}:")) {
                             return Outcome::fail("trailing-blank-not-printed", format!("line {l} is not named on stderr\n{err}")).nontrivial(true);
                         }
                     }
